@@ -72,11 +72,13 @@ class Ctx:
 
 
 # --------------------------------------------------------------------------- cargo
-def cargo_build(ctx, pkg, features=None, no_default=False):
-    key = (pkg, features, no_default)
+def cargo_build(ctx, pkg, features=None, no_default=False, target_dir=None):
+    key = (pkg, features, no_default, target_dir)
     if key in ctx.built:
         return
     cmd = ["cargo", "build", "--offline", "-q", "-p", pkg]
+    if target_dir:
+        cmd += ["--target-dir", target_dir]
     if no_default:
         cmd.append("--no-default-features")
     if features:
